@@ -6,6 +6,7 @@ mod enginex;
 mod fungen;
 mod isatest;
 mod funref;
+mod funtemplates;
 mod mach;
 mod minimize;
 mod monitor;
@@ -72,6 +73,15 @@ fn real_main() -> i32 {
                 }
             }
             println!("{errs:#?}");
+            0
+        }
+        Some("templates") => {
+            for (name, src, _) in funtemplates::TEMPLATES {
+                match fun::parser::parse_module(src).map_err(|e| format!("parse {e:?}")).and_then(|m| m.check().map_err(|e| format!("{e:?}"))) {
+                    Ok(_) => println!("{name}: accepted"),
+                    Err(e) => println!("{name}: REJECTED {e}"),
+                }
+            }
             0
         }
         Some("funstat") => {
